@@ -59,6 +59,7 @@ def from_fluxes(rng):
     tr = [{"ev": "CurveFromFluxes", "raised": False, "mode": mode, "T": F(T), "Tperm": F(Tperm or 0.0), "pperm": F(pperm or 0.0),
            "Pin": [F(P[0]), F(P[1])], "prec": PREC, "basis": basis, "mixname": mix.name, "probe": False,
            "M1": F(mix.first_component.molecular_weight), "M2": F(mix.second_component.molecular_weight)}]
+    touch_getters(rng, d)
     ys = d.permeate_composition
     for k, c in enumerate(comps):
         y = float(ys[k].p)
@@ -80,6 +81,17 @@ def from_fluxes(rng):
                    "Pout": [F(d.permeances[k][0].value), F(d.permeances[k][1].value)], "Punits": d.permeances[k][0].units,
                    "y": F(y), "pf": [F(pf[0]), F(pf[1])], "pp_mass": ppm, "pp_molar": ppx, "dpp": dpp, "L": F(L)})
     return tr
+
+
+def touch_getters(rng, d):
+    """the derived quantities of a curve are read (in any order, any number of them) BEFORE its permeances are: reading is not writing"""
+    names = ["get_selectivity", "get_separation_factor", "get_psi", "permeate_composition", "get_permeances"]
+    rng.shuffle(names)
+    for nm in names[:rng.randrange(0, len(names) + 1)]:
+        try:
+            getattr(d, nm)
+        except Exception:  # noqa: BLE001
+            pass
 
 
 def to_si_factor(units, comp):
@@ -138,6 +150,9 @@ def from_permeances(rng):
         d3_raised = False
     except Exception:  # noqa: BLE001
         d3, d3_raised = Failed(len(comps)), True
+    for q in (d, d2, d3):
+        if not isinstance(q, Failed):
+            touch_getters(rng, q)
     tr = [{"ev": "CurveFromPermeances", "units": units, "T": F(T), "basis": basis, "mixname": mix.name, "probe": False}]
     for k, c in enumerate(comps):
         pf = pv.get_partial_pressures(T, mix, c)
